@@ -344,7 +344,7 @@ func runC13(tier string) int {
 	r.Set("long_max_constants", maxK)
 	// the property lifted over the control-flow program families: every flag / var / trainer operand, comparison
 	// value and case value of every program replaced by a constant defined in the file header
-	plans, swN := enginePlans(tier)
+	plans, swN := liftPlans(tier)
 	forEachEngineProgram(r, plans, swN, func(w int, p engineProgram) {
 		src := model.Print([]*model.Script{p.Script})
 		ref := comp.Compile(src, comp.Opts{Optimize: true})
